@@ -63,7 +63,8 @@ class Ops:
             and 'IN' in self.binary,
             string=('DQUOTES', 'NAME', 'DQUOTES') in rhs_all,
             paren=('LPAREN', 'expr', 'RPAREN') in rhs_all,
-            neg=('MINUS', 'NUMBER') in rhs_all)
+            neg=('MINUS', 'NUMBER') in rhs_all,
+            trunc=('expr', 'TRUNCATE', 'number') in rhs_all)
         # binary operators usable between arbitrary operands
         self.infix = [b for b in self.binary if b != 'IN']
         self.level = {}
@@ -126,7 +127,7 @@ def gen_sentence(rng, ops, budget, special=0.25):
 
 
 def gen_special(rng, ops, budget, special):
-    forms = [f for f in ('ite', 'ifte', 'quant', 'let', 'rng')
+    forms = [f for f in ('ite', 'ifte', 'quant', 'let', 'rng', 'trunc')
              if ops.has[f]]
     if not forms:
         return gen_atom(rng, ops)
@@ -151,6 +152,11 @@ def gen_special(rng, ops, budget, special):
         if rng.random() < 0.3:
             out += [('L', rng.choice(['f2', 'g2'])), T('DEF')] + g(b)
         return out + [T('IN_EXPR')] + g(b)
+    if f == 'trunc':
+        # expr <<>> number, unparenthesised: what it captures to its left is
+        # decided by the (absent) precedence of TRUNCATE
+        return (gen_sentence(rng, ops, max(1, budget - 2), special)
+                + [T('TRUNCATE')] + gen_number(rng, ops))
     # expr \in num .. num
     return (gen_sentence(rng, ops, max(1, budget - 4), 0.0) + [T('IN')]
             + gen_number(rng, ops) + [T('DOTS')] + gen_number(rng, ops))
@@ -176,6 +182,15 @@ def systematic(ops):
         for p in ops.prefix:
             out.append(([T(p), a, T('IN'), one, T('DOTS'), three],
                         ('pre-in', p)))
+    if ops.has['trunc']:
+        three = ('L', '3')
+        for o in ops.infix:
+            out.append(([a, T(o), b, T('TRUNCATE'), three], ('bin-trunc', o)))
+            out.append(([a, T('TRUNCATE'), three, T(o), b], ('trunc-bin', o)))
+        for p in ops.prefix:
+            out.append(([T(p), a, T('TRUNCATE'), three], ('pre-trunc', p)))
+        for q in ops.postfix:
+            out.append(([a, T(q), T('TRUNCATE'), three], ('post-trunc', q)))
     for p in ops.prefix:
         for o in ops.infix:
             out.append(([T(p), a, T(o), b], ('pre-bin', p, o)))
